@@ -860,6 +860,10 @@ func (db *DB) Close(ctx context.Context) (err error) {
 	db.f = nil
 	db.opened = false
 	db.rtx = nil
+	// The in-memory sync cursor is only valid while the read lock is held.
+	// Once closed, other processes may checkpoint or truncate the WAL, so a
+	// later Open() must re-verify continuity from the LTX files alone.
+	db.syncState = syncState{}
 	db.mu.Unlock()
 
 	if sqlDB != nil {
